@@ -46,10 +46,12 @@ def _body(fn):
 class PyTr:
     """statements of one function -> PropL.Stmt"""
 
-    def __init__(self, receiver, closure_strings=()):
+    def __init__(self, receiver, closure_strings=(), legacy=False):
         self.receiver = receiver
         self.vars = {}          # local name -> (index, 's' | 'v')
         self.closure_strings = closure_strings
+        self.legacy = legacy    # inside _init_trait_property_listener: `cached` / `name` are its string parameters
+        self.dict_alias = set()
 
     def idx(self, name, kind):
         if name not in self.vars:
@@ -60,6 +62,8 @@ class PyTr:
         return i
 
     def is_dict(self, e):
+        if isinstance(e, ast.Name) and e.id in self.dict_alias:
+            return True
         return isinstance(e, ast.Attribute) and e.attr == "__dict__" and isinstance(e.value, ast.Name) \
             and e.value.id == self.receiver
 
@@ -67,14 +71,18 @@ class PyTr:
         if isinstance(e, ast.Name):
             if e.id == "TraitsCache":
                 return ".traitsCache"
-            if e.id == "property_name":
+            if e.id == "property_name" or (self.legacy and e.id == "name"):
                 return ".propName"
+            if self.legacy and e.id == "cached":
+                return ".cachedParam"
             if e.id in self.vars and self.vars[e.id][1] == "s":
                 return "(.var %d)" % self.vars[e.id][0]
             raise Unsupported("string name %s" % e.id)
         if isinstance(e, ast.Attribute) and e.attr == "__name__" and isinstance(e.value, ast.Name) \
                 and e.value.id == "function":
             return ".funcName"
+        if self.legacy and isinstance(e, ast.Constant) and e.value == ":old":
+            return ".oldSuffix"
         if isinstance(e, ast.BinOp) and isinstance(e.op, ast.Add):
             return "(.cat %s %s)" % (self.sexpr(e.left), self.sexpr(e.right))
         if isinstance(e, ast.Subscript) and isinstance(e.slice, ast.Slice) and e.slice.upper is None \
@@ -126,6 +134,13 @@ class PyTr:
         if isinstance(n, ast.Pass):
             return ".skip"
         if isinstance(n, ast.Assign):
+            if len(n.targets) == 1 and isinstance(n.targets[0], ast.Name) and isinstance(n.value, ast.Attribute) \
+                    and n.value.attr == "__dict__" and isinstance(n.value.value, ast.Name) \
+                    and n.value.value.id == self.receiver:
+                self.dict_alias.add(n.targets[0].id)        # `dict = self.__dict__`: an alias, no data
+                return ".skip"
+            if len(n.targets) == 1 and isinstance(n.targets[0], ast.Subscript) and self.is_dict(n.targets[0].value):
+                return "(.dictSet %s %s)" % (self.sexpr(n.targets[0].slice), self.vexpr(n.value))
             if len(n.targets) == 1 and isinstance(n.targets[0], ast.Name):
                 t = n.targets[0].id
                 if self.is_sexpr(n.value):
@@ -539,6 +554,42 @@ def read_property_factory(traits_dir):
     return ["fget", "fset", "fvalidate"]
 
 
+def read_legacy(tree):
+    """HasTraits._init_trait_property_listener -> (notify without cache, pre_notify, notify with cache, registrations)"""
+    ht = _find(tree.body, ast.ClassDef, "HasTraits")
+    fn = _find(ht.body, ast.FunctionDef, "_init_trait_property_listener")
+    if [a.arg for a in fn.args.args] != ["self", "name", "kind", "cached", "pattern"]:
+        raise Unsupported("_init_trait_property_listener: signature")
+    body = _body(fn)
+    if len(body) != 2 or not isinstance(body[0], ast.If) or ast.unparse(body[0].test) != "cached is None":
+        raise Unsupported("_init_trait_property_listener: shape")
+    regs = []
+
+    def handler(f, prefix):
+        if [ast.unparse(d) for d in f.decorator_list] != ["weak_arg(self)"] or [a.arg for a in f.args.args] != ["self"]:
+            raise Unsupported("legacy handler %s: decorator / signature" % f.name)
+        return PyTr("self", legacy=True).block(prefix + _body(f))
+    unc = body[0].body
+    if len(unc) != 1 or not isinstance(unc[0], ast.FunctionDef):
+        raise Unsupported("legacy: uncached branch")
+    final = ast.unparse(body[1])
+    notify_name = unc[0].name
+    notify_unc = handler(unc[0], [])
+    els = body[0].orelse
+    if len(els) != 4 or not isinstance(els[0], ast.Assign) or not isinstance(els[1], ast.FunctionDef) \
+            or not isinstance(els[3], ast.FunctionDef) or els[3].name != notify_name:
+        raise Unsupported("legacy: cached branch")
+    pre = handler(els[1], [els[0]])
+    notify_c = handler(els[3], [els[0]])
+    want_pre = "self.on_trait_change(%s, pattern, priority=True, target=self)" % els[1].name
+    want_fin = "self.on_trait_change(%s, pattern, target=self)" % notify_name
+    if ast.unparse(els[2]) != want_pre or final != want_fin:
+        raise Unsupported("legacy: registrations %s / %s" % (ast.unparse(els[2]), final))
+    # registration order and priorities, with the handler names abstracted
+    regs = ["pre_notify:priority", "notify"]
+    return notify_unc, pre, notify_c, regs
+
+
 def emit(traits_dir):
     tree = ast.parse(open(os.path.join(traits_dir, "has_traits.py")).read())
     cpos = _find(tree.body, ast.FunctionDef, "_create_property_observe_state")
@@ -582,6 +633,7 @@ def emit(traits_dir):
     gargs = [re.sub(r"\(PyObject \*\)|\s", "", a) for a in m.group(2).split(",")]
     if int(m.group(1)) != len(gargs):
         raise Unsupported("getattr_property1: argument count")
+    leg_unc, leg_pre, leg_notify, leg_regs = read_legacy(tree)
     gets = [read_call_handler(csrc, "getattr_property%d" % i) for i in range(4)]
     sets = [read_set_handler(csrc, "setattr_property%d" % i) for i in range(4)]
     vals = [read_call_handler(csrc, "setattr_validate%d" % i) for i in range(4)]
@@ -601,6 +653,13 @@ def emit(traits_dir):
         "def handlerProg : Stmt :=\n  %s" % handler_term, "",
         "/-- `cached_property`: `name = …` and the body of `decorator` (traits/has_traits.py) -/",
         "def decoratorProg : Stmt :=\n  %s" % deco_term, "",
+        "/-- `HasTraits._init_trait_property_listener` (legacy `depends_on`): `notify` of an uncached property,",
+        "`pre_notify` and `notify` of a cached one (each preceded by `cached_old = cached + ':old'`), and the order /",
+        "priority in which they are registered with `on_trait_change(…, pattern, target=self)` -/",
+        "def legacyNotifyUncachedProg : Stmt :=\n  %s" % leg_unc,
+        "def legacyPreNotifyProg : Stmt :=\n  %s" % leg_pre,
+        "def legacyNotifyProg : Stmt :=\n  %s" % leg_notify,
+        "def legacyRegistrations : List String := [%s]" % ", ".join(lean_s(x) for x in leg_regs), "",
         "/-- `state['post_init']` of the property's observer -/",
         "def postInit : Bool := %s" % ("true" if kw["post_init"].value else "false"), "",
         "/-- body of `trait_property_changed` (traits/ctraits.c) -/",
